@@ -253,6 +253,8 @@ def history(run, prog, db):
         why = f'collection B built after A was topped up: serialises with {nrefs} reference(s) (must be 0); a third one parses with extras {vrepr(pd)[:40]}'
     except RaiseEx as e:
         ok, why = False, f'raises {e}'
+    except Mismatch as e:
+        ok, why = False, f'a collection without extras does not decode as CurrencyCollection: {str(e)[:160]}'
     run.check(ok, 'D1s', 'CurrencyCollection[state shared between instances]' if not ok else 'history: collections without extras are independent', why, prog.where(prog.method('CurrencyCollection', '__init__')))
 
 
